@@ -222,5 +222,85 @@ theorem avail_chunks (cs : List Bytes) : avail (cs.map Event.chunk) = cs.flatten
 theorem noFault_chunks (cs : List Bytes) : NoFault (cs.map Event.chunk) := by
   intro h; simp at h
 
+theorem advance_base (w : Window) (s e : Nat) : (Window.advance w s e).baseOffset = w.baseOffset := by
+  unfold Window.advance
+  by_cases hg : (w.prevEnd ≤ s ∧ s ≤ e ∧ e ≤ w.buf.length) <;> simp [hg]
+
+/-- the raw bytes a caller sees for the previous token: `d.buf[d.prevStart:d.prevEnd]` -/
+def SState.prevBytes (s : SState) : Bytes := (s.w.buf.drop s.w.prevStart).take (s.w.prevEnd - s.w.prevStart)
+
+/-- what a successful streaming ReadToken did, in terms of the grown unread buffer `u'` and the window `w1` after
+the refills -/
+theorem readToken_tok_shape (o : VOpts) (s : SState) (ws : WState) (h : Sim s ws)
+    (k : UInt8) (a b : Nat) (ht : (readToken o s).1 = .tok k a b) :
+    ∃ (start n : Nat) (u' : Bytes) (es' : List Event) (w1 : Window),
+      a = ws.off + start ∧ b = ws.off + n ∧ start ≤ n ∧ n ≤ u'.length ∧ ws.r = u' ++ avail es' ∧
+      w1.unread = u' ∧ w1.inputOffset = ws.off ∧ w1.prevEnd ≤ w1.buf.length ∧ k = kindAt u' start ∧
+      (readToken o s).2.w = Window.advance w1 (w1.prevEnd + (if (k == 0x22 || k == 0x30) = true then start else n)) (w1.prevEnd + n) := by
+  obtain ⟨h1, h2, h3, h4, h5, h6⟩ := h
+  obtain ⟨i1, i2, i3, i4, i5⟩ := invalidate_facts s.w h1 h2
+  have hscan := scanToken_ok o s.st (Window.invalidate s.w).unread s.events
+  unfold readToken at ht ⊢
+  simp only at ht ⊢
+  cases hs : scanToken o s.st (Window.invalidate s.w).unread s.events with
+  | fault u' es' => rw [hs] at ht; simp at ht
+  | res r start u' es' f =>
+    rw [hs] at hscan ht
+    obtain ⟨g0, g1, g2, g3, g4⟩ := hscan
+    have hT : u' ++ avail es' = (Window.invalidate s.w).unread ++ (Window.invalidate s.w).pending := by
+      rw [i3, h3]; exact g1
+    obtain ⟨c1, c2, c3, c4, c5⟩ := commit_facts (Window.invalidate s.w) f u' (avail es') i4 i5 hT g3
+    have hr : ws.r = (Window.invalidate s.w).unread ++ avail s.events := by rw [i1]; exact h5
+    have hoff : (commitFetch (Window.invalidate s.w) f (u'.length - (Window.invalidate s.w).unread.length)).inputOffset = ws.off := by
+      rw [c2, i2]; exact h6.symm
+    simp only at ht ⊢
+    generalize commitFetch (Window.invalidate s.w) f (u'.length - (Window.invalidate s.w).unread.length) = w1 at *
+    cases r with
+    | err off e => simp at ht
+    | tok n st' =>
+      simp only at ht ⊢
+      obtain ⟨t1, t2, t3, t4⟩ := g4 n st' rfl
+      injection ht with hk ha hb
+      refine ⟨start, n, u', es', w1, ?_, ?_, t2, t3, ?_, c1, hoff, c5, hk.symm, ?_⟩
+      · rw [← ha, hoff]
+      · rw [← hb, hoff]
+      · rw [hr]; exact g1.symm
+      · rw [← hk]
+
+theorem readToken_span (o : VOpts) (s : SState) (ws : WState) (h : Sim s ws) (pre : Bytes) (hpre : pre.length = ws.off)
+    (k : UInt8) (a b : Nat) (ht : (readToken o s).1 = .tok k a b) :
+    ws.off ≤ a ∧ a ≤ b ∧ b ≤ (pre ++ ws.r).length ∧
+    (readToken o s).2.w.baseOffset + (readToken o s).2.w.prevEnd = b ∧
+    ((k == 0x22 || k == 0x30) = true →
+      (readToken o s).2.w.baseOffset + (readToken o s).2.w.prevStart = a ∧
+      (readToken o s).2.prevBytes = ((pre ++ ws.r).drop a).take (b - a)) := by
+  obtain ⟨start, n, u', es', w1, ea, eb, t2, t3, hr, c1, hoff, c5, hk, hw⟩ := readToken_tok_shape o s ws h k a b ht
+  have hbuf : w1.buf.length = w1.prevEnd + u'.length := by
+    have := congrArg List.length c1
+    simp only [Window.unread, List.length_drop] at this
+    omega
+  have hsel : start ≤ (if (k == 0x22 || k == 0x30) = true then start else n) ∧
+      (if (k == 0x22 || k == 0x30) = true then start else n) ≤ n := by
+    split <;> omega
+  obtain ⟨a1, a2, a3, a4, a5, a6⟩ := advance_facts w1
+    (w1.prevEnd + (if (k == 0x22 || k == 0x30) = true then start else n)) (w1.prevEnd + n)
+    ⟨by omega, by omega, by omega⟩
+  have hio : w1.baseOffset + w1.prevEnd = ws.off := hoff
+  refine ⟨by omega, by omega, ?_, ?_, ?_⟩
+  · rw [hr]; simp; omega
+  · rw [hw, a5, advance_base]; omega
+  · intro hkk
+    simp only [hkk, if_true] at a4 a5 a6 hw
+    constructor
+    · rw [hw, a4, advance_base]; omega
+    · unfold SState.prevBytes
+      rw [hw, a4, a5, a6]
+      have e1 : w1.buf.drop (w1.prevEnd + start) = u'.drop start := by
+        rw [← c1]; simp only [Window.unread, List.drop_drop]
+      have e2 : (pre ++ ws.r).drop a = (u' ++ avail es').drop start := by
+        rw [ea, ← hpre, hr, List.drop_length_add_append]
+      rw [e1, e2, List.drop_append_of_le_length (by omega), List.take_append_of_le_length (by simp [List.length_drop]; omega)]
+      congr 1; omega
+
 
 end JsonV.Model.Stream
